@@ -101,14 +101,28 @@ Theorem C02_read_after_any_history :
 Proof. exact read_after_history. Qed.
 Print Assumptions C02_read_after_any_history.
 
-(* the hypotheses are met by every layer the writer produces (any contents, any chunk size > 0, any member grouping)
-   and by the cold cache *)
+(* the hypotheses are met by every layer the writer produces (any contents, any chunk size > 0, any member grouping),
+   as indexed by EITHER metadata store (memory: initFields tables; db: initNodes + readChunks tables), and by the cold cache *)
 Theorem C02_writer_layers_ok :
-  forall cs (fs : list (bytes * list (Z * list key))), 0 < cs ->
-    LayerOK (map (fun f => mkFile (fst f) (mk_table (zlen (fst f)) cs) (snd f)) fs)
-    /\ Honest (map (fun f => mkFile (fst f) (mk_table (zlen (fst f)) cs) (snd f)) fs) cempty.
-Proof. intros cs fs H. exact (conj (layer_of_writer_ok cs fs H) (honest_empty _)). Qed.
+  forall db cs (fs : list (bytes * list (Z * list key))), 0 < cs ->
+    LayerOK (map (writer_file db cs) fs) /\ Honest (map (writer_file db cs) fs) cempty.
+Proof. intros db cs fs H. exact (conj (layer_of_writer_ok db cs fs H) (honest_empty _)). Qed.
 Print Assumptions C02_writer_layers_ok.
+
+(* db store: the chunk table it rebuilds (sizes recomputed from offsets) tiles [0,n) for every file size and chunk size,
+   and its ChunkEntryForOffset (plain search, no single-entry shortcut) meets the same lookup contract *)
+Theorem C02_db_chunks_tile_and_lookup :
+  forall n cs, 0 <= n -> 0 < cs ->
+    tiles 0 (t_chunks (mk_table_db n cs)) n
+    /\ (forall x ch, 0 <= x -> chunk_for_offset_db (mk_table_db n cs) x = Some ch ->
+          0 <= c_off ch /\ c_off ch <= x < c_off ch + c_size ch /\ c_off ch + c_size ch <= n)
+    /\ (forall x, 0 <= x < n -> chunk_for_offset_db (mk_table_db n cs) x <> None)
+    /\ (forall x, n <= x -> chunk_for_offset_db (mk_table_db n cs) x = None).
+Proof.
+  intros n cs Hn Hcs. pose proof (db_chunks_tiles n cs Hn Hcs) as Ht.
+  destruct (search_lookup_lookupspec _ n Hn Ht) as [H1 H2 H3]. exact (conj Ht (conj H1 (conj H2 H3))).
+Qed.
+Print Assumptions C02_db_chunks_tile_and_lookup.
 
 (* short at EOF, never wrong: the returned slice has min(len, n - off) bytes (none past EOF) and is a prefix of the
    file content from off *)
@@ -178,8 +192,9 @@ Print Assumptions C02_hardlink_denotes_target.
 (* a two-file layer built as the writer builds it (chunk size 4), and a history with reads across chunk boundaries,
    at and past EOF, an eviction, a prefetch and an interference step: hypotheses hold, every read is exact *)
 Definition exL : layer :=
-  map (fun f => mkFile (fst f) (mk_table (zlen (fst f)) 4) (snd f))
-      [([1; 2; 3; 4; 5; 6; 7; 8; 9; 10]%N, []); ([]%N, [])].
+  map (writer_file false 4) [([1; 2; 3; 4; 5; 6; 7; 8; 9; 10]%N, []); ([]%N, [])].
+Definition exLdb : layer :=
+  map (writer_file true 4) [([1; 2; 3; 4; 5; 6; 7; 8; 9; 10]%N, []); ([]%N, [])].
 Definition exOps : list op :=
   [Read 0 2 7; Evict [(0%nat, 4, 4)]; Read 0 3 3; Read 0 9 5; Read 0 10 3; Prefetch; Env (honest_on exL [(0%nat, 8, 2)]); Read 0 0 20; Read 1 0 4].
 Example C02_nonvacuous_history :
@@ -188,7 +203,7 @@ Example C02_nonvacuous_history :
   = [Some (ROk [3; 4; 5; 6; 7; 8; 9]%N); None; Some (ROk [4; 5; 6]%N); Some (ROk [10]%N); Some (ROk []); None; None;
      Some (ROk [1; 2; 3; 4; 5; 6; 7; 8; 9; 10]%N); Some (ROk [])].
 Proof.
-  split; [exact (layer_of_writer_ok 4 _ ltac:(reflexivity))|].
+  split; [exact (layer_of_writer_ok false 4 _ ltac:(reflexivity))|].
   split; [exact (honest_empty _)|].
   split; [|vm_compute; reflexivity].
   repeat constructor; try (cbn; discriminate); try exact (honest_on_honest _ _).
@@ -203,6 +218,13 @@ Proof.
   split; [|vm_compute; reflexivity].
   intros k b c0 H. destruct b; [exact (honest_empty _)|exact (honest_add_honest _ _ _ H)].
 Qed.
+
+Example C02_nonvacuous_db :
+  LayerOK exLdb /\ t_chunks (f_table (file_at exLdb 0)) = [mkChunk 0 4; mkChunk 4 4; mkChunk 8 2]
+  /\ t_chunks (f_table (file_at exLdb 1)) = []
+  /\ map (option_map fst) (snd (run exLdb cempty [Read 0 2 7; Read 0 9 5; Read 1 0 4]))
+     = [Some (ROk [3; 4; 5; 6; 7; 8; 9]%N); Some (ROk [10]%N); Some (ROk [])].
+Proof. split; [exact (layer_of_writer_ok true 4 _ ltac:(reflexivity))|]. vm_compute. repeat split. Qed.
 
 Example C02_nonvacuous_table :
   mk_table 10 4 = mkTable (mkChunk 0 4) [mkChunk 0 4; mkChunk 4 4; mkChunk 8 2]
